@@ -34,7 +34,9 @@ def foldBits (h : UInt64) (w : Writer) : UInt64 := foldList (fnvStep h w.length)
 /-- count vector number `idx` over `nsym` symbols, counts `0..12` (base-13 digits, symbol 0 first) -/
 def exhVector (nsym idx : Nat) : List Nat := (List.range nsym).map fun i => idx / 13 ^ i % 13
 
-/-- digest of everything the builders do on one small count vector -/
+/-- digest of everything the builders do on one small count vector
+(a 37-node scratch tree is enough for alphabets of at most 6 symbols and for the
+18-symbol code-length code: C17.store_tree_roundtrip, create_huffman_tree_total; the real code gets 1409) -/
 def exhStep (nsym : Nat) (withBuild : Bool) (h : UInt64) (idx : Nat) : UInt64 :=
   let v := exhVector nsym idx
   let nz := (v.filter (· ≠ 0)).length
@@ -47,13 +49,13 @@ def exhStep (nsym : Nat) (withBuild : Bool) (h : UInt64) (idx : Nat) : UInt64 :=
       match t15 with
       | .ok d =>
         let h := foldOut h (convertBitDepthsToSymbols d nsym zeros) foldList
-        if nz ≥ 2 then foldOut h (storeHuffmanTree d nsym (scratchTree 704) []) foldBits else h
+        if nz ≥ 2 then foldOut h (storeHuffmanTree d nsym (scratchTree 18) []) foldBits else h
       | _ => h
     else h
   let h := foldOut h (buildAndStoreHuffmanTreeFast v v.sum 3 zeros zeros [])
     fun h r => foldBits (foldList (foldList h r.1) r.2.1) r.2.2
   if withBuild then
-    foldOut h (buildAndStoreHuffmanTree v nsym nsym (scratchTree 704) zeros zeros [])
+    foldOut h (buildAndStoreHuffmanTree v nsym nsym (scratchTree 18) zeros zeros [])
       fun h r => foldBits (foldList (foldList h r.1) r.2.1) r.2.2
   else h
 
